@@ -433,7 +433,8 @@ class Run(Oracles):
             if not m or (rm.kind != "start" and m.group(1) != fname):
                 w.fail({"C10"}, "group/name-pattern", f"{rm.kind} of {fname!r} returned {name!r}")
         if name in pm.groups_live:
-            w.fail({"C10", "C09"}, "group/name-collides-with-live-group", name)
+            # (C04: the invocations of this apply()/start() are then no longer those of "its" group)
+            w.fail({"C10", "C09"} | ({"C04"} if rm.kind in ("apply", "start") else {"C05"}), "group/name-collides-with-live-group", name)
         if any(r.group == name for r in pm.reqs if r is not rm):
             w.label("group:name-reused")
         if rm.kind == "start" and name != f"start-group-{pm.start_groups}":
